@@ -3,9 +3,12 @@ import glob, json, os
 V = os.path.dirname(os.path.dirname(os.path.abspath(__file__)))
 props = [json.loads(l)["id"] for l in open(os.path.join(V, "properties.jsonl"))]
 checks, claimed = [], set()
+ready = set(open(os.path.join(V, "manifest.d", "READY")).read().split())
 for f in sorted(glob.glob(os.path.join(V, "manifest.d", "C*.json"))):
     d = json.load(open(f))
     pid = d["property_id"]
+    if pid not in ready:
+        continue
     claimed.add(pid)
     d.setdefault("quick_cmd", f"./check {pid} --tier quick")
     d.setdefault("thorough_cmd", f"./check {pid} --tier thorough")
